@@ -23,7 +23,7 @@ def parse_steps(lines):
         if kind == "result":
             cur["result"] = f[2]
             continue
-        if kind in ("target", "move", "gens", "fmt", "Q"):
+        if kind in ("target", "move", "est", "gens", "fmt", "Q"):
             continue
         cur["raw"].append(" ".join(f[1:]))
         if kind == "route":
